@@ -488,7 +488,8 @@ impl<B: AsRef<[usize]> + BitCount> SelectAdapt<B, Box<[usize]>> {
 
         // First phase: we build an inventory for each one out of ones_per_inventory.
         for (i, word) in bits.as_ref().iter().copied().enumerate() {
-            let ones_in_word = word.count_ones() as usize;
+            // Dirty bits beyond the end of the vector must not be counted
+            let ones_in_word = (word.count_ones() as usize).min(num_ones - past_ones);
 
             while past_ones + ones_in_word > next_quantum {
                 let in_word_index = word.select_in_word(next_quantum - past_ones);
@@ -605,7 +606,7 @@ impl<B: AsRef<[usize]> + BitCount> SelectAdapt<B, Box<[usize]>> {
             let mut word = (bits.as_ref()[word_idx] >> bit_idx) << bit_idx;
 
             'outer: loop {
-                let ones_in_word = word.count_ones() as usize;
+                let ones_in_word = (word.count_ones() as usize).min(num_ones - past_ones);
 
                 // If the quantum is in this word, write it in the subinventory.
                 // Note that this can happen multiple times in the same word if
